@@ -16,7 +16,7 @@ from .c09 import finish
 from .c11 import gen_nested_big
 from .c05 import with_probes
 
-AUDIT = re.compile(r'\b(into_group_map\w*|into_grouping_map\w*|GroupingMap|counts_by|counts\(\)|HashMap|HashSet|RandomState|std::env|env::var|SystemTime|Instant::|thread_rng|rand::|std::fs|fs::read|as \*const|\.as_ptr\(\)|process::id|thread::current)\b')
+AUDIT = re.compile(r'\b(into_group_map\w*|into_grouping_map\w*|GroupingMap|counts_by|counts\(\)|HashMap|HashSet|RandomState|std::env|env::var|SystemTime|Instant::|thread_rng|rand::|std::fs|fs::read|as \*const|\.as_ptr\(\)|process::id|thread::current|thread_local|static mut|Atomic[A-Z]\w+|OnceLock|OnceCell|LazyLock|lazy_static|Mutex|RwLock|RefCell)\b')
 
 
 def tie_case(rng):
@@ -151,6 +151,22 @@ def run(tier, seed, replay=None):
                 violations.append(dict(kind='property', request=c.invocation(), program=world + before + observed + 'fn main() {}\n',
                                        expansion_a=texts[0][-2500:], expansion_b=texts[1][-2500:],
                                        oracle='the expansion of an invocation differs when another invocation was expanded before it in the same compiler process'))
+        # ... also for inherent invocations with the same self type spelling (a memo keyed on the
+        # self type would hand the second one the first one's helper arguments): `observed` declares
+        # an impl lifetime that only its items mention, `before` does not
+        wr = 'pub struct Wr<T>(pub core::marker::PhantomData<T>);\n'
+        ib = 'pub mod before {\n    use super::*;\n    %s    disjoint_impls! {\n        impl<T: D<G = GA>> Wr<T> { pub const NAME: &\'static str = "a"; }\n        impl<T: D<G = GB>> Wr<T> { pub const NAME: &\'static str = "b"; }\n    }\n}\n' % wr
+        io = 'pub mod observed {\n    use super::*;\n    %s    disjoint_impls! {\n        impl<\'a, T: D<G = GA>> Wr<T> { pub fn pick(o: &\'a str) -> &\'a str { o } }\n        impl<\'b, T: D<G = GB>> Wr<T> { pub fn pick(o: &\'b str) -> &\'b str { o } }\n    }\n}\n' % wr
+        texts = []
+        for prog in (gp.PRELUDE + io + 'fn main() {}\n', gp.PRELUDE + ib + io + 'fn main() {}\n'):
+            code, out, err = expanded(prog, {}, tmpdirs[0])
+            stats['expansions'] += 1
+            texts.append(extract_module(out, 'observed') if code == 0 else None)
+        stats['context_pairs'] = stats.get('context_pairs', 0) + 1
+        if texts[0] is None or texts[1] is None or texts[0] != texts[1]:
+            violations.append(dict(kind='property', request=io, program=gp.PRELUDE + ib + io + 'fn main() {}\n',
+                                   expansion_a=(texts[0] or 'does not expand')[-2500:], expansion_b=(texts[1] or 'does not expand')[-2500:],
+                                   oracle='the expansion of an inherent invocation differs (or fails) when another inherent invocation over an equally spelled self type was expanded before it in the same compiler process'))
     finally:
         for d in tmpdirs:
             shutil.rmtree(d, ignore_errors=True)
